@@ -111,8 +111,31 @@ def extra():
             SchemaInfo(Schema({"nodes": {
                 "doc": {"content": "(X|Z)*"}, "X": {"content": "text?"}, "Z": {"content": "text*"}, "text": {},
             }}), "optional-text-local"),
+            *_context_flag_schemas(),
         ]
     return _EXTRA
+
+
+def _context_flag_schemas():
+    """the list schema with the two one-sided `defining` flags that only `Transform.replace_range` reads
+    (`definingAsContext`: stops the walk up from the range start; `definingForContent`: `defines_content` of the slice's
+    left nodes) spread over the block types instead of `defining` — the aimed schemas of the replace_range tie
+    (harness/rangeplan.py: tie_replace_range)"""
+    out = []
+    n = _nodes(list_schema)
+    n["blockquote"] = {"content": "block+", "group": "block", "definingAsContext": True}
+    n["heading"] = {**{k: v for k, v in n["heading"].items() if k != "defining"}, "definingForContent": True}
+    n["list_item"] = {"content": "paragraph block*"}
+    n["iso"] = {"group": "block", "content": "block+", "isolating": True}
+    out.append(SchemaInfo(Schema({"nodes": n, "marks": _marks(list_schema)}), "ctx-flags-a"))
+    n = _nodes(list_schema)
+    n["blockquote"] = {"content": "block+", "group": "block", "definingForContent": True}
+    n["heading"] = {**{k: v for k, v in n["heading"].items() if k != "defining"}, "definingAsContext": True}
+    n["list_item"] = {"content": "paragraph block*", "definingForContent": True}
+    n["bullet_list"] = {**n["bullet_list"], "definingAsContext": True}
+    n["code_block"] = {k: v for k, v in n["code_block"].items() if k != "defining"}
+    out.append(SchemaInfo(Schema({"nodes": n, "marks": _marks(list_schema)}), "ctx-flags-b"))
+    return out
 
 
 # ---------------------------------------------------------------------------------------------
